@@ -4,6 +4,7 @@
 # runs the pinned suite there (SUITE=1), runs the quick checks against it through VERIF_REPO,
 # and removes the worktree. Evidence/replay files go to a scratch VERIF_DIR copy so that the
 # committed evidence is not overwritten.
+VH=${VERIF_HOME:-$(cd "$(dirname "$0")/.." && pwd)}   # the /verif tree these tools belong to (a snapshot works too)
 set -u
 patch=$(realpath "$1"); shift
 export GOFLAGS=-mod=mod GOPROXY=off GOSUMDB=off
@@ -17,10 +18,10 @@ if [ "${SUITE:-0}" = 1 ]; then
   if ( cd $wt && go test -vet=off -count=1 ./... >$out/suite.log 2>&1 ); then echo "suite: PASS"; else echo "suite: FAIL"; grep -E '^(---|FAIL)' $out/suite.log | head -5; fi
 fi
 mkdir -p $out/verif/evidence $out/verif/replays
-cp /verif/known_findings.json $out/verif/
-ln -s /verif/sim $out/verif/sim
+cp $VH/known_findings.json $out/verif/
+ln -s $VH/sim $out/verif/sim
 for p in "$@"; do
-  res=$(VERIF_REPO=$wt VERIF_DIR=$out/verif VERIF_NO_FRESH_REPLAY=${FRESH:-1} timeout ${TMO:-900} /verif/bin/verif check "$p" 2>&1); rc=$?
+  res=$(VERIF_REPO=$wt VERIF_DIR=$out/verif VERIF_NO_FRESH_REPLAY=${FRESH:-1} timeout ${TMO:-900} $VH/bin/verif check "$p" 2>&1); rc=$?
   echo "[$p] exit=$rc $(echo "$res" | grep -c '^VIOLATION') violation line(s)"
   echo "$res" | grep -E '^  C|^TROUBLE|^worker' | cut -c1-300 | awk '{k=$1; c[k]++; if (c[k]<=1) print}' | head -6
 done
